@@ -98,6 +98,16 @@ def persistent_configs(tier):
                         "menu": {"timer_early": True, "app_early": True}, "timeout_ms": 2000})
     out.append({"cluster": CLUSTER, "discovery": False, "producer": {"acks": 1, "max_req_attempts": 2},
                 "script": S_BIG, "menu": MENU_LIGHT, "timeout_ms": 2000})
+    # a send is cancelled while the partition lookup of its batch keeps failing
+    for mode in ({"api": 3, "err": 5, "budget": -1}, {"api": 3, "err": 3, "budget": 3},
+                 {"api": 3, "silent": True, "budget": -1}):
+        for attempts, n in itertools.product([2, 3], [2, 3]):
+            prod = {"acks": 1, "max_req_attempts": attempts, "batch_send": True, "batch_every_n": n,
+                    "batch_every_b": 0, "batch_every_t": 0}
+            out.append({"cluster": dict(CLUSTER, modes=[mode]), "discovery": False, "producer": prod,
+                        "script": [["send", "t", None, ["a0"]], ["send", "t", None, ["b0"]], ["cancel", 0],
+                                   ["send", "u", None, ["c0"]]],
+                        "menu": {"timer_early": True, "app_early": True}, "timeout_ms": 2000})
     return out
 
 
